@@ -60,6 +60,7 @@ def specs(
     dotted=False,
     flags=False,
     selfref=False,
+    twins=False,
 ):
     n_pkgs = draw(st.integers(1, max_pkgs))
     n_algs = draw(st.integers(min_algs, max_algs))
@@ -191,6 +192,15 @@ def specs(
                                   'dawgie_ignore' if style == 'legacy'
                                   else 'DAWGIE_IGNORE']))
             for _i in range(n_pkgs)]
+    if twins and style == 'registry':
+        # two classes of one task package with the same class name, in
+        # different modules (bot.py / extra.py)
+        for i, a in enumerate(algs):
+            taken = {x.get('twin') for x in algs}
+            mates = [k for k in range(i) if algs[k]['pkg'] == a['pkg']
+                     and algs[k].get('twin') is None and k not in taken]
+            if mates and draw(st.integers(0, 2)) == 0:
+                a['twin'] = draw(st.sampled_from(mates))
     if dotted and draw(st.integers(0, 2)) == 0:
         # the base package may sit below another package (org.engine)
         spec['base_depth'] = 2
@@ -365,6 +375,14 @@ def _sv_list(i, a):
     return out
 
 
+def _loc(spec, i):
+    '''module and class name of algorithm i inside its package'''
+    k = spec['algs'][i].get('twin')
+    if k is not None and spec['style'] == 'registry':
+        return f'extra.Alg_{k}'
+    return f'bot.Alg_{i}'
+
+
 def sources(spec, base, viol=None):
     '''{relative path: source text} for the whole engine package.
 
@@ -400,6 +418,7 @@ def sources(spec, base, viol=None):
             '    return ds.update()',
             '',
         ]
+        extra = []
         for i, a in mine:
             for j, sv in enumerate(a['svs']):
                 for k, val0 in enumerate(sv['vals']):
@@ -456,9 +475,10 @@ def sources(spec, base, viol=None):
             kind = a['kind']
             abase = ('Version' if hit('alg-base', alg=i)
                      else _BASE_CLASS[kind])
+            cls_start = len(bot)
             bot += [
                 '',
-                f'class Alg_{i}(dawgie.{abase}):',
+                f'class {_loc(spec, i).split(".")[1]}(dawgie.{abase}):',
             ]
             badmom = v.get('kind', '').startswith('moment-') and v.get('alg') == i
             if spec['style'] == 'registry' and (a['events'] or badmom):
@@ -511,6 +531,10 @@ def sources(spec, base, viol=None):
                 )
                 for ip in imports:
                     bot.append(f'            import {base}.{ip}.bot')
+                    if any(_loc(spec, r['to']).startswith('extra')
+                           for r in refs
+                           if spec['pkgs'][algs[r['to']]['pkg']] == ip):
+                        bot.append(f'            import {base}.{ip}.extra')
                 bot.append(f'            self.{cache} = []')
                 badref = (v.get('kind', '').startswith('ref-')
                           and v.get('alg') == i and v.get('which') == cache
@@ -520,7 +544,7 @@ def sources(spec, base, viol=None):
                     tp = spec['pkgs'][algs[r['to']]['pkg']]
                     bot.append(
                         f'            i{n} = self' if r['to'] == i else
-                        f'            i{n} = {base}.{tp}.bot.Alg_{r["to"]}()'
+                        f'            i{n} = {base}.{tp}.{_loc(spec, r["to"])}()'
                     )
                     good = (f'            self.{cache}.append('
                             f'{_ref_src(base, spec, r, f"i{n}")})')
@@ -556,6 +580,9 @@ def sources(spec, base, viol=None):
                     '        _run(self, timeline.ds())',
                     '',
                 ]
+            if _loc(spec, i).startswith('extra'):
+                extra += bot[cls_start:]
+                del bot[cls_start:]
         kinds_here = sorted({a['kind'] for _i, a in mine})
         init = ['import datetime', 'import dawgie', 'import dawgie.base', '']
         flag = (spec.get('ignore_flag') or [None] * len(spec['pkgs']))[pi]
@@ -615,12 +642,12 @@ def sources(spec, base, viol=None):
                 for i, a, m in evs:
                     init.append(
                         f'        dawgie.schedule({a["kind"]}, '
-                        f'{base}.{pk}.bot.Alg_{i}(), {_moment_src(m)}),'
+                        f'{base}.{pk}.{_loc(spec, i)}(), {_moment_src(m)}),'
                     )
                 for i, a in bad:
                     init.append(
                         f'        dawgie.EVENT(dawgie.ALG_REF({a["kind"]}, '
-                        f'{base}.{pk}.bot.Alg_{i}()), '
+                        f'{base}.{pk}.{_loc(spec, i)}()), '
                         + _BAD_MOMENT[v['kind']] + '),'
                     )
                 init.append('    ]')
@@ -631,10 +658,12 @@ def sources(spec, base, viol=None):
                     '',
                     f'def {kind}({_SIG[kind]}):',
                     f'    import {base}.{pk}.bot as bot',
+                    (f'    import {base}.{pk}.extra as extra' if extra
+                     else ''),
                     '',
                     '    return dawgie.base.{}({}, [{}])'.format(
                         _BOT_CLASS[kind], _ARGS[kind],
-                        ', '.join(f'bot.Alg_{i}' for i, a in mine
+                        ', '.join(_loc(spec, i) for i, a in mine
                                   if a['kind'] == kind)),
                     '',
                 ]
@@ -649,6 +678,12 @@ def sources(spec, base, viol=None):
         bot += _BOGUS
         files[f'{bdir}/{pk}/__init__.py'] = '\n'.join(init) + '\n'
         files[f'{bdir}/{pk}/bot.py'] = '\n'.join(bot) + '\n'
+        if extra:
+            files[f'{bdir}/{pk}/extra.py'] = '\n'.join([
+                'import datetime', 'import dawgie', 'import dawgie.base',
+                f'import {base}',
+                f'from {base}.{pk}.bot import *  # noqa: F401,F403',
+                f'from {base}.{pk}.bot import _run', ''] + extra) + '\n'
     return files
 
 
